@@ -101,14 +101,25 @@ fn check_c06(env: &batch::Env) -> i32 {
     batch::exit_of(&[&r1, &r2, &r3])
 }
 
+fn check_c17(env: &batch::Env) -> i32 {
+    use batch::Scenario;
+    let r1 = batch::run_batch(&c17::C17, env, env.runs_override.unwrap_or_else(|| c17::C17.runs(env.tier)));
+    let pl = pipeline::Pipeline { prop: "C17" };
+    let r2 = batch::run_batch(&pl, env, batch::extra_runs(pl.runs(env.tier), "VERIF_PIPELINE_RUNS"));
+    let r3 = batch::run_batch(&c17::C17Seq, env, batch::extra_runs(c17::C17Seq.runs(env.tier), "VERIF_SEQ_RUNS"));
+    batch::write_evidence(env, "C17", &r1, &[("pipeline", &r2), ("exhaustive_sequences", &r3)]);
+    batch::exit_of(&[&r1, &r2, &r3])
+}
+
 fn check_c10(env: &batch::Env) -> i32 {
     use batch::Scenario;
     let r1 = batch::run_batch(&c10::C10, env, env.runs_override.unwrap_or_else(|| c10::C10.runs(env.tier)));
     let r2 = batch::run_batch(&c10::Decode1090Proc, env, batch::extra_runs(c10::Decode1090Proc.runs(env.tier), "VERIF_PROC_RUNS"));
     let pl = pipeline::Pipeline { prop: "C10" };
     let r3 = batch::run_batch(&pl, env, batch::extra_runs(pl.runs(env.tier), "VERIF_PIPELINE_RUNS"));
-    batch::write_evidence(env, "C10", &r1, &[("decode1090_process", &r2), ("pipeline", &r3)]);
-    batch::exit_of(&[&r1, &r2, &r3])
+    let r4 = batch::run_batch(&c10::C10Grid, env, batch::extra_runs(c10::C10Grid.runs(env.tier), "VERIF_GRID_RUNS"));
+    batch::write_evidence(env, "C10", &r1, &[("decode1090_process", &r2), ("pipeline", &r3), ("exhaustive_grid", &r4)]);
+    batch::exit_of(&[&r1, &r2, &r3, &r4])
 }
 
 /// Entry point: `VERIF_CMD=check|replay|dethash VERIF_PROP=<id> <test binary>
@@ -129,7 +140,7 @@ fn verif_entry() {
             "C09" => check(&c09::C09, &env),
             "C10" => check_c10(&env),
             "C12" => check(&c12::C12, &env),
-            "C17" => check(&c17::C17, &env),
+            "C17" => check_c17(&env),
             _ => {
                 println!("HARNESS-ERROR: unknown property '{}'", prop);
                 2
@@ -142,6 +153,8 @@ fn verif_entry() {
             ("C10", "focused") => replay_or_det(&c10::C10, &cmd, &env),
             ("C10", "decode1090") => replay_or_det(&c10::Decode1090Proc, &cmd, &env),
             ("C06", "decode1090") => replay_or_det(&c06::Decode1090Pos, &cmd, &env),
+            ("C10", "grid") => replay_or_det(&c10::C10Grid, &cmd, &env),
+            ("C17", "sequences") => replay_or_det(&c17::C17Seq, &cmd, &env),
             ("C12", "focused") => replay_or_det(&c12::C12, &cmd, &env),
             ("C17", "focused") => replay_or_det(&c17::C17, &cmd, &env),
             ("C06", "pipeline") => replay_or_det(&pipeline::Pipeline { prop: "C06" }, &cmd, &env),
